@@ -11,6 +11,7 @@ import Gv.Proofs.EvalLemmas
 import Gv.Proofs.GenLemmas
 import Gv.Proofs.RootCause
 import Gv.Proofs.ErrPath
+import Gv.Proofs.ErrUp
 
 namespace Gv.Props.C07
 open Gv Gv.Str Gv.Eval
@@ -273,5 +274,112 @@ example : Fails (exProgram exUsing) 0 exValue
   refine .mapped (lf := some (.basic "x".toList)) (List.mem_cons_self) ?_ (.inl rfl) ?_
   · simp [walk, fieldOf, List.lookup]
   exact .custom (d := exAtoi) (a := .basic "x".toList) rfl rfl (fun _ => rfl)
+
+/-! ### Only real failures come up, and every failure comes up (the first sentence of C07, over whole plans)
+
+All statements here hold for ALL programs, plans, values and fuel, without any checker hypothesis. -/
+
+/-- **C07_root_fails**: an error returned by a method is rooted in a function that really fails on some argument, or in the
+`@error` action of an enum switch -/
+theorem C07_root_fails (p : Program) (fuel m : Nat) (v : Val) (cs : List Val) (n : Nat) (e : ErrV)
+    (h : callMethod p fuel m v cs n = .err e) :
+    (∃ fn a, rootCause e = .boom fn ∧ p.sem.failsOn fn a = true) ∨ rootCause e = .enumUnknown :=
+  callMethod_caused_by p fuel m v cs n e h
+
+/-- **C07_no_failure_no_error**: if no custom function and no source-struct method fails on anything, a method never
+returns an error made of a function failure: the only error left is the configured `@error` enum action -/
+theorem C07_no_failure_no_error (p : Program) (hno : ∀ name v, p.sem.failsOn name v = false) (fuel m : Nat) (v : Val)
+    (cs : List Val) (n : Nat) (e : ErrV) (h : callMethod p fuel m v cs n = .err e) : rootCause e = .enumUnknown := by
+  rcases callMethod_caused_by p fuel m v cs n e h with ⟨fn, a, _, hf⟩ | h2
+  · rw [hno fn a] at hf; cases hf
+  · exact h2
+
+/-- **C07_never_swallowed**: `ErrIn p fuel fr n task e root` (Gv/Proofs/ErrUp.lean) says that the evaluation of `task`
+reaches — after earlier elements, map entries, fields and constructors that evaluate without an error — a custom function
+or source-struct method that fails (or an `@error` action): `root`.  Then the evaluator returns an error, exactly that
+failure wrapped by every call site on the way up; nothing on the way (cast, pointer, list, map, struct field, constructor,
+nested method with error result) drops or replaces it. -/
+theorem C07_never_swallowed (p : Program) (fuel : Nat) (fr : Frame) (n m : Nat) (v : Val) (cs : List Val) (e root : ErrV)
+    (h : ErrIn p fuel fr n (.call m v cs) e root) : callMethod p fuel m v cs n = .err e ∧ rootCause e = root :=
+  errIn_sound h
+
+/-- the same for a plan node in any frame -/
+theorem C07_never_swallowed_node (p : Program) (fuel : Nat) (fr : Frame) (n : Nat) (c : Conv) (v old : Val) (e root : ErrV)
+    (h : ErrIn p fuel fr n (.conv c v old) e root) : evalConv p fuel fr c v old n = .err e ∧ rootCause e = root :=
+  errIn_sound h
+
+/-- **C07_error_iff_first_failure**: both directions at once — a method returns the error `e` EXACTLY when its evaluation
+reaches, after siblings that evaluate without an error, a failing function / source-struct method / `@error` action, and
+`e` is that failure wrapped by the call sites on the way up (so `ErrIn` is neither too strong nor too weak) -/
+theorem C07_error_iff_first_failure (p : Program) (fuel : Nat) (fr : Frame) (m : Nat) (v : Val) (cs : List Val) (n : Nat) (e : ErrV) :
+    callMethod p fuel m v cs n = .err e ↔ ∃ root, ErrIn p fuel fr n (.call m v cs) e root :=
+  callMethod_err_iff p fuel fr m v cs n e
+
+/-- the same for a plan node in any frame -/
+theorem C07_error_iff_first_failure_node (p : Program) (fuel : Nat) (fr : Frame) (c : Conv) (v old : Val) (n : Nat) (e : ErrV) :
+    evalConv p fuel fr c v old n = .err e ↔ ∃ root, ErrIn p fuel fr n (.conv c v old) e root :=
+  evalConv_err_iff p fuel fr c v old n e
+
+/-- one step of it, for the nested call: the callee's error comes back wrapped with the path of the call site … -/
+theorem C07_callee_error_propagates (p : Program) (fuel : Nat) (fr : Frame) (m : Nat) (args : List CallArg) (w : Wrap) (v old : Val)
+    (n n1 : Nat) (argVals : List Val) (e : ErrV) (ha : args.filterMapM (argOf fr v) n = .ok (argVals, n1))
+    (h : callMethod p fuel m v (ctxValsOf fr args) n1 = .err e) :
+    evalConv p (fuel+1) fr (.call (.method m) args true w) v old n = .err (wrapErr w fr.idx fr.keys e) :=
+  up_method p fuel fr m args w v old n n1 argVals e ha h
+
+/-- … and a call node built without an error result never turns the callee's error into a value: the model has no result
+there (the generator refuses to build such a node, `C07_refuse_to_drop`) -/
+theorem C07_callee_error_not_dropped (p : Program) (fuel : Nat) (fr : Frame) (m : Nat) (args : List CallArg) (w : Wrap) (v old : Val)
+    (n n1 : Nat) (argVals : List Val) (e : ErrV) (ha : args.filterMapM (argOf fr v) n = .ok (argVals, n1))
+    (h : callMethod p fuel m v (ctxValsOf fr args) n1 = .err e) :
+    evalConv p (fuel+1) fr (.call (.method m) args false w) v old n = .stuck "error from a callee that returns none" :=
+  up_method_no_drop p fuel fr m args w v old n n1 argVals e ha h
+
+/-- one step for a list: the error of an element after successful earlier elements is the error of the loop -/
+theorem C07_element_error_propagates (p : Program) (fuel : Nat) (fr : Frame) (te : Ty) (elem : Conv) (v x : Val) (vs : List Val)
+    (i n n1 : Nat) (e : ErrV)
+    (h1 : evalConv p fuel { fr with idx := fr.idx ++ [i], parent := none } elem v (zeroVal p.conv.env 64 te) n = .ok (x, n1))
+    (h2 : evalElems p fuel fr te elem vs (i + 1) n1 = .err e) : evalElems p (fuel+1) fr te elem (v :: vs) i n = .err e :=
+  up_elems_there p fuel fr te elem v x vs i n n1 e h1 h2
+
+/-- one step for a struct: the error of a later field after successfully processed earlier ones is the error of the struct -/
+theorem C07_field_error_propagates (p : Program) (fuel : Nat) (fr : Frame) (f : FieldPlan) (rest : FieldPlans) (src old old' : Val)
+    (n n' : Nat) (e : ErrV) (h1 : FieldDone p fuel fr f src old n old' n') (h2 : evalFields p fuel fr rest src old' n' = .err e) :
+    evalFields p (fuel+1) fr (.cons f rest) src old n = .err e :=
+  up_fields_there p fuel fr f rest src old old' n n' e h1 h2
+
+/-! non-vacuity -/
+
+/-- the hypothesis of `C07_no_failure_no_error` holds for the default semantics (no function fails) -/
+example : ∀ name v, ({} : CustomSem).failsOn name v = false := fun _ _ => rfl
+
+/-- `exProgram`: the failing element at index 1 of `Items` (the first element converts without an error, then `Atoi`
+fails inside the sub-method) makes the whole `Convert` return that error, with its location -/
+example (fr : Frame) : callMethod (exProgram exUsing) 12 0 exValue [] 0 =
+      .err (.wrap [("Field", .basic "Items".toList), ("Index", .basic "1".toList)] (.wrap [("Field", .basic "V".toList)] (.boom "Atoi".toList))) ∧
+    rootCause (.wrap [("Field", .basic "Items".toList), ("Index", .basic "1".toList)] (.wrap [("Field", .basic "V".toList)] (.boom "Atoi".toList)))
+      = .boom "Atoi".toList := by
+  let exItem : String → Val := fun s => .struct [("V".toList, .basic s.toList)]
+  have exElem0 : ∀ (fr : Frame) (old : Val), evalConv (exProgram exUsing) 7 fr (.call (.method 1) [.source] true
+        { mode := modeOf exUsing, path := [.field "Items".toList, .index] }) (exItem "1") old 0 =
+      .ok (.struct [("V".toList, .tok "Atoi".toList [.basic "1".toList])], 0) := by
+    intro fr old
+    unfold evalConv
+    simp [exItem, exProgram, exMethod, exInner, exAtoi, exUsing, modeOf, evalConv, evalFields, walk, fieldOf, setField, normStruct,
+      zeroVal, under, TEnv.find, Val.isAbsent, bind, StateT.bind, pure, StateT.pure, List.lookup, callMethod, argOf, List.filterMapM,
+      List.filterMapM.loop]
+  refine C07_never_swallowed _ 12 fr 0 0 _ _ _ _ ?_
+  refine .callConvert (gm := exMethod "Convert" exUsing (exOuter (modeOf exUsing))) (c := exOuter (modeOf exUsing)) rfl rfl ?_
+  refine .struct ?_
+  refine .fieldMapped (lf := some (.slice (.src 0) [exItem "1", exItem "x"])) (by simp [exItem, exValue, walk, fieldOf, List.lookup]) rfl ?_
+  refine .listMake (vs := [exItem "1", exItem "x"]) rfl ?_
+  refine .elemsThere (exElem0 _ _) ?_
+  refine .elemsHere ?_
+  refine .method (argVals := [exItem "x"]) (n1 := 0) (fr' := fr) (e := .wrap [("Field", .basic "V".toList)] (.boom "Atoi".toList)) ?_ ?_
+  · rfl
+  refine .callConvert (gm := exMethod "ItemToOItem" exUsing (exInner (modeOf exUsing))) (c := exInner (modeOf exUsing)) rfl rfl ?_
+  refine .struct ?_
+  refine .fieldMapped (lf := some (.basic "x".toList)) (by simp [exItem, walk, fieldOf, List.lookup]) rfl ?_
+  refine .custom (d := exAtoi) (argVals := [.basic "x".toList]) (n1 := 0) ?_ ?_ ?_ <;> rfl
 
 end Gv.Props.C07
